@@ -419,6 +419,18 @@ def run(ctx):
     frontier = []
     for variant in VARIANTS:
         frontier.append((variant, [], []))
+    # start from non-initial states too: histories that have already been verified at depth <= 2 are used
+    # as additional roots, so that depth d from them covers selected histories of length d + 2
+    idx = {repr(op): i for i, op in enumerate(OPS)}
+    sim05 = idx[repr(("simulate", {"d": 0.5, "steps": None}))]
+    upd = idx[repr(("update_variable", {"value": 2.0}))]
+    ss = idx[repr(("steady_state", {}))]
+    roots = [[sim05, upd], [sim05, idx[repr(("update_parameter", {"name": "k", "factor": 2.0}))]]]
+    for variant in VARIANTS:
+        for root in roots + ([[ss]] if variant == "auto" else []):
+            fail, _step, digest, _ref, _p = run_history(variant, root)
+            if fail is None:
+                frontier.append((variant, list(root), digest))
     for d in range(1, depth + 1):
         cases = []
         for variant, hist, dig in frontier:
